@@ -1,9 +1,2 @@
-META = {
-    "C18": dict(
-        level="bounded symbolic model checking of NodeScheduler (node_scheduler.h) against a mirror model: every operation sequence up to the bound, "
-              "all requested times symbolic; plus a scripted scheduler node inside a real graph",
-        note="bounds and what lies outside them are in evidence coverage.harnesses[*].bounds/outside; unit level drives the header-only scheduler with graph==nullptr",
-    ),
-}
 _WIP = "check under construction in this session (harness not yet landed); will be claimed or given a definitive reason"
 NOT_APPLICABLE = {pid: _WIP for pid in ["C%02d" % i for i in range(1, 21)]}
